@@ -38,6 +38,13 @@ func (b *wb) add(it world.Item) int {
 	return it.ID
 }
 
+// subsec moves item id to ms milliseconds after its whole-second date.
+func (b *wb) subsec(id, ms int) {
+	if id > 0 {
+		b.w.Items[id-1].Nano = ms * 1000000
+	}
+}
+
 func (b *wb) val(s string) int {
 	if id, ok := b.vals[s]; ok {
 		return id
@@ -497,6 +504,13 @@ func fixedWorld(name string, s *world.Signers) (*WorldFile, error) {
 		b.set(p18, "camliPath:x", p3, 151)
 		b.addc(p18, "camliMember", p2, 152)
 		b.set(p18, "title", "album", 153)
+		// three permanodes created within ONE second (and modified within another): sort keys that differ below the second
+		p20, p21, p22 := b.pn("20"), b.pn("21"), b.pn("22")
+		b.subsec(b.addc(p20, "tag", "a", 170), 100)
+		b.subsec(b.addc(p21, "tag", "a", 170), 900)
+		b.subsec(b.addc(p22, "tag", "a", 170), 500)
+		b.subsec(b.set(p21, "title", "hello", 180), 300)
+		b.subsec(b.set(p20, "title", "hello", 180), 600)
 		p19 := b.pn("19")
 		b.set(p19, "camliPath:x", p1, 160)
 		b.set(p19, "camliPath:x", p5, 161)
@@ -697,7 +711,7 @@ func randWorld(name string, seed int64, s *world.Signers) (*WorldFile, error) {
 				}
 				b.claim("set", p, "title", titles[rng.Intn(len(titles))], d, signer)
 			case 5:
-				b.set(p, "camliNodeType", ntypes[rng.Intn(len(ntypes))], d)
+				b.subsec(b.set(p, "camliNodeType", ntypes[rng.Intn(len(ntypes))], d), rng.Intn(1000))
 			case 6:
 				b.claim([]string{"set", "add"}[rng.Intn(2)], p, "count", counts[rng.Intn(len(counts))], d, 1)
 			case 7:
